@@ -9,12 +9,12 @@ CHECKS = {
    tech="round-trip property-based testing (proptest) + coverage-guided fuzzing (libFuzzer, arbitrary-decoded datasets) with the oracle in the target"),
 
  "C16": dict(cat="exploration",
-   text="totality: 14 public parsers per input under catch_unwind, acceptance must consume the whole input for the three whole-request parsers; inputs = exhaustive sweep of every char offset of a 166-request corpus (from the repo's tests/examples) x {6 multi-byte insertions, delete, duplicate token, truncate}, token-level mutations of generated queries, deep nesting ({ / << / ( x 10^2..10^5) in a child process on a 2 MiB-stack thread, and (thorough) a 5 M-execution libFuzzer campaign with the same oracle in the target; faithfulness: generated SELECT/update syntax trees printed twice with independent layout choices (whitespace, # comments, keyword case, ?x/$x, optional WHERE, ./;/, abbreviations, quote forms, prefixed names) and the parsed AST compared structurally with the tree and between the two printings",
+   text="totality: 14 public parsers per input under catch_unwind, acceptance must consume the whole input for the three whole-request parsers; inputs = exhaustive sweep of every char offset of a 166-request corpus (from the repo's tests/examples) x {6 multi-byte insertions, delete, duplicate token, truncate}, token-level mutations of generated queries, deep nesting ({ / << / ( x 10^2..10^5) in a child process on a 2 MiB-stack thread, a history part (a valid request re-parsed after each of 1-12 hostile inputs on the same fresh thread must give the same tree), and (thorough) a libFuzzer campaign with the same oracle in the target; faithfulness: generated SELECT/update syntax trees printed twice with independent layout choices (whitespace, # comments, keyword case, ?x/$x, optional WHERE, ./;/, abbreviations, quote forms, prefixed names) and the parsed AST compared structurally with the tree and between the two printings",
    note="trusted: documented AST normal form of shared::query with the merge-adjacent-BGP / one-member-group normalisation on both sides; harness tokeniser for raw operand slices; stack exhaustion observed as death of a child whose parser thread has a 2 MiB stack; layout restricted to what the code and tests accept",
    tech="property-based round-trip testing (proptest) + exhaustive mutation sweep + coverage-guided fuzzing (libFuzzer) with an in-target oracle"),
 
  "C13": dict(cat="exploration",
-   text="parameter-driven document generation for the five loaders (N-Triples, N-Quads, Turtle, N3, RDF/XML in their line-oriented subsets; comments/blank lines, prefixes only at the top or re-bound mid-document, ;/, shorthand, CRLF) with an exact model oracle (lexical quads after == before + document triples, as multisets), a split-document metamorphic relation (one call == several small documents) and a cross-format relation (same triples in two formats load identically); exhaustive enumeration of format x boundary size (0,1,2,999,1000,1001,1999,2000,2001,2500 lines; 8191/8192/8193/16385 XML triples) x prior content (empty / API / other loader) x rayon pool size (1,2,16), plus random cases",
+   text="parameter-driven document generation for the five loaders (N-Triples, N-Quads, Turtle, N3, RDF/XML in their line-oriented subsets; comments/blank lines, prefixes only at the top or re-bound mid-document, ;/, shorthand, CRLF) with an exact model oracle (lexical quads after == before + document triples, as multisets), a split-document metamorphic relation (one call == several small documents) and a cross-format relation (same triples in two formats load identically); exhaustive enumeration of format x boundary size (0,1,2,999,1000,1001,1999,2000,2001,2500 lines; 8191/8192/8193/16385 XML triples) x prior content (empty / API / other loader / named graphs only / added then deleted / dictionary only) x rayon pool size (1,2,16), plus random cases",
    note="trusted: lexical conventions from README and tests; the N3 literal convention is read from a one-statement load (open finding C13-F4: N3 keeps the quotes); thread schedules only sampled through pool sizes; multi-line N3 statements and N3 ',' / 'a' are outside the generated subset",
    tech="property-based testing (proptest) + exhaustive boundary enumeration; model oracle and metamorphic relations"),
 
@@ -24,8 +24,8 @@ CHECKS = {
    tech="property-based differential testing (proptest) + bounded enumeration against a least-fixpoint oracle; metamorphic renaming relation"),
 
  "C11": dict(cat="exploration",
-   text="engines built through RSPBuilder from generated RSP-QL text with 2-3 windows on distinct streams, per-window blocks over a shared vocabulary, optional static patterns/data, policies Wait/Steal/Timeout, single- and multi-thread mode; one probe window per configured window records every content that window reported; every emitted row restricted to the variables of block k must be a reference-BGP answer of block k over SOME content window k reported so far, and its static part an answer of the static patterns over the static data alone",
-   note="trusted: probe windows and the reference BGP evaluator; the oracle is existential over past firings of the same window, hence sound for every synchronisation policy (it does not decide WHICH content must be used); multi-thread runs only perturb, they do not enumerate schedules; known finding C11-F1 (one shared store for all windows) is excluded through its own signature only",
+   text="engines built through RSPBuilder from generated RSP-QL text with 2-3 windows on distinct streams, per-window blocks over a shared vocabulary, optional static patterns/data, policies Wait/Steal/Timeout, single- and multi-thread mode; one probe window per configured window records every content that window reported; every emitted row restricted to the variables of block k must be a reference-BGP answer of block k over SOME content window k reported so far, and its static part an answer of the static patterns over the static data alone; parts: shared-vocabulary blocks, blocks joining on 2-3 variables over confusable value tuples, and histories built so that a block could be answered by mixing two reports of its own window",
+   note="trusted: probe windows and the reference BGP evaluator; the oracle is existential over past firings of the same window, hence sound for every synchronisation policy (it does not decide WHICH content must be used); multi-thread runs only perturb, they do not enumerate schedules; known finding C11-F1 (one shared store for all windows) covers only rows that are answers over ONE report of the window plus items other windows reported; a row needing two reports of the same window has its own signature",
    tech="model-based property testing (proptest) with probe windows and a per-block explanation oracle"),
 
  "C08": dict(cat="fault_enumeration",
@@ -33,16 +33,16 @@ CHECKS = {
    note="trusted: world-enumeration oracle; exclusive group = exactly one member true with probability p_i (sum 1); every referenced seed is in the snapshot; budgets in (0,1h); invalid configurations must yield NeedsExact (from validate()); ~4% of cases with R>2500 are swept at 400 sampled n",
    tech="property-based testing (proptest) + exhaustive fault enumeration over clock readings / node budgets against a possible-worlds oracle"),
  "C10": dict(cat="exploration",
-   text="engines built through RSPBuilder from generated RSP-QL text (one window, 1-3 patterns, RSTREAM/ISTREAM/DSTREAM, 0-3 N3 rules sharing vocabulary with the stream) fed generated in-order streams; a probe CSPARQLWindow with identical parameters gives the content of every firing and the expected rows are the reference BGP answers over content + least fixpoint of the rules, through a stream-operator model; single-thread runs are compared per add call, multi-thread runs are repeated under perturbed schedules (hook H1 yield points + producer pauses) and compared chunk by chunk with the single-thread sequence",
+   text="engines built through RSPBuilder from generated RSP-QL text (one window, 1-3 patterns, RSTREAM/ISTREAM/DSTREAM, 0-3 N3 rules sharing vocabulary with the stream) fed generated in-order streams; a probe CSPARQLWindow with identical parameters gives the content of every firing and the expected rows are the reference BGP answers over content + least fixpoint of the rules, through a stream-operator model; single-thread runs are compared per add call, multi-thread runs are repeated under perturbed schedules (hook H1 yield points + producer pauses; the first schedule of every case holds the worker at its first firing until the whole stream is ingested) and the emitted sequence is compared chunk by chunk with the single-thread sequence (the number of firings the worker processed is recorded, not judged)",
    note="trusted: probe window (C09 decides its own correctness), reference BGP evaluator and fixpoint; schedules are perturbed, not enumerated - the harness does not own the OS scheduler, so 'every thread schedule' is sampled only; stop()/flush() not called; IRIs only",
    tech="model-based property testing (proptest) with seeded schedule perturbation through a cfg-guarded hook"),
 
  "C01": dict(cat="exploration",
-   text="differential testing against an independent reference evaluator: generated (dataset, SELECT text) pairs over default+named graphs (empty graphs, same triple in several graphs) and a recursive query grammar (BGP, nested groups, UNION, GRAPH <iri>/?g, group-scoped FILTER, BIND, VALUES/UNDEF, sub-SELECT with modifiers, FROM/FROM NAMED, GROUP BY aggregates, DISTINCT/ORDER BY/LIMIT) run through execute_sparql_query (and the legacy volcano entry point); rows compared as multisets, sortedness under ORDER BY, legal-cut predicate under LIMIT",
+   text="differential testing against an independent reference evaluator: generated (dataset, SELECT text) pairs over default+named graphs (empty graphs, same triple in several graphs) and a recursive query grammar (BGP, nested groups, UNION, GRAPH <iri>/?g, group-scoped FILTER, BIND, VALUES/UNDEF, sub-SELECT with modifiers, FROM/FROM NAMED, GROUP BY aggregates, DISTINCT/ORDER BY/LIMIT) run through execute_sparql_query (and the legacy volcano entry point); rows compared as multisets, sortedness under ORDER BY, legal-cut predicate under LIMIT; extra parts for ORDER BY over mixed-kind keys and for DISTINCT/GROUP BY over composite keys whose value tuples are easy to confuse (prefix-related IRIs, literals whose concatenations coincide); VALUES blocks repeat rows; a quarter of the cases run the query again on the used database",
    note="trusted: the nested-loop SPARQL 1.1 algebra evaluator in harness/src/sparql.rs (written from the spec, no engine code) and the supported-fragment restrictions a-f of DESIGN C01 enforced by construction; SELECT * column order = first syntactic appearance; sizes bounded (<=40 default triples, depth <=3)",
    tech="property-based differential testing (proptest): grammar-based query generation + reference SPARQL algebra oracle"),
  "C02": dict(cat="exploration",
-   text="metamorphic + differential testing of the planning pipeline driven through its public pieces: per generated query the baseline (source order, fresh stats, chosen plan, 1 thread) must equal the reference evaluator, and every variant - permuted BGPs, empty/stale/adversarial statistics, every assignment of bind/hash/nested-loop to the join nodes of the chosen plan (all 3^j for j<=3, else sampled), scan-strategy flips, rayon pools of 2/3/8/16 threads, and a stale cached-statistics end-to-end scenario - must equal the baseline",
+   text="metamorphic + differential testing of the planning pipeline driven through its public pieces: per generated query the baseline (source order, fresh stats, chosen plan, 1 thread) must equal the reference evaluator, and every variant - permuted BGPs, empty/stale/adversarial statistics, every assignment of bind/hash/nested-loop to the join nodes of the chosen plan (all 3^j for j<=3, else sampled), scan-strategy flips, rayon pools of 2/3/8/16 threads (thorough: every size 2..16), and a stale cached-statistics end-to-end scenario - must equal the baseline",
    note="trusted: reference evaluator of C01; fragment restriction (a) (the condition under which the three join algorithms are specified to agree); thread schedules only perturbed through pool sizes; join-node rewriting assumes the optimizer considers all three algorithms for every join (it does: find_best_plan_recursive)",
    tech="metamorphic property-based testing (proptest) with plan rewriting + reference SPARQL algebra oracle"),
  "C03": dict(cat="exploration",
@@ -51,20 +51,20 @@ CHECKS = {
    tech="model-based property testing (proptest) of update histories against a reference SPARQL Update model"),
  "C05": dict(cat="exploration",
    text="generated Datalog programs over triples (1-4 premises, constants, repeated variables, variable predicates, multi-conclusion, numeric filters, recursion, one stratum of safe negation) x 4 strategies (naive, semi-naive, parallel, Boolean-provenance) x 2 insertion orders; store == facts + least model (both directions), returned vector == new facts without duplicates, second run derives nothing, unsafe negated rules rejected",
-   note="trusted: independent naive T_P least-fixpoint oracle (harness/src/oracle_datalog.rs, unit-tested); numeric/identity filter reading (ambiguous cases skipped and counted); restricted negation class, negation only on the provenance strategy; open findings C05-F1..F3 (parallel strategy) excluded only through sandwich-guarded signatures",
-   tech="property-based differential testing (proptest) against a least-fixpoint oracle"),
+   note="trusted: independent naive T_P least-fixpoint oracle (harness/src/oracle_datalog.rs, unit-tested); numeric/identity filter reading (ambiguous cases skipped and counted); restricted negation class, negation only on the provenance strategy; the parallel strategy is judged like the others since C05-F1..F3 were fixed (cd17b52)",
+   tech="property-based differential testing (proptest) against a least-fixpoint oracle; thorough tier adds a small coverage-guided campaign (libFuzzer drives the same strategy through proptest's PassThrough generator)"),
  "C06": dict(cat="exploration",
    text="generated programs (recursive, shared evidence, cycles, negation class) with 1-8 (thorough: up to 12) uncertain input facts; exhaustive enumeration of all 2^n worlds gives the possible-worlds probability; DnfWmc and Sdd modes must equal it within 1e-9, MinMax must equal the widest-path value, Boolean must equal derivability, every fact of positive probability must be present, both insertion orders agree",
    note="trusted: world-enumeration oracle (bitset form cross-checked against explicit enumeration for n<=8), f64 arithmetic; AddMult and TopK are approximations by their own documentation and not asserted",
    tech="property-based testing (proptest) against exhaustive possible-worlds enumeration"),
  "C07": dict(cat="fault_enumeration",
-   text="truth-table oracle: all 256x256x2 operand pairs over 3 variables x 2 entry points exhaustively (x 6 variable-introduction orders in thorough); generated operation histories over <=8 variables (apply/negate/exactly_one/literal, variables introduced at any time, budgeted twins) checked for exactness, canonicity both ways, WMC and gradient sums; for a chosen budgeted operation every deadline checkpoint k and every node budget is enumerated on a fresh manager, the history continues after the Err and everything is re-checked",
+   text="truth-table oracle: all 256x256x2 operand pairs over 3 variables x 2 entry points exhaustively (x 6 variable-introduction orders in thorough); generated operation histories over <=8 variables (apply/negate/exactly_one/literal, variables introduced at any time, budgeted twins) checked for exactness, canonicity both ways, WMC and gradient sums (counts also immediately before and after every re-registration of a variable with another weight); for a chosen budgeted operation every deadline checkpoint k and every node budget is enumerated on a fresh manager, the history continues after the Err and everything is re-checked",
    note="trusted: bit-level Boolean-function oracle sharing nothing with sdd.rs; group WMC compared only on h AND exactly_one(G) for all registered groups; same result = same handle on the same manager + same canonical structure on the twin manager; <=8 variables, <=80 operations, one interrupted operation per history",
    tech="model-based property testing (proptest) + bounded exhaustive enumeration + exhaustive interruption-point enumeration through the injectable budget callback"),
  "C17": dict(cat="exploration",
-   text="generated and mutated request strings (SELECTs, all six update forms, legacy aliases, RULE/REGISTER texts, garbage; multi-byte insertion, delimiter insertion, deletion, token duplication, truncation) x generated datasets x every string entry point incl. HTTP adapters; lexical snapshot (quads + catalog) unchanged around every query-path call and every Err, Err for everything the parser rejects and for update syntax on the query path, Ok for well-formed SELECTs, no panic; plus an exhaustive sweep of every char-boundary offset of 20 corpus requests x 6 multi-byte characters",
+   text="generated and mutated request strings (SELECTs, all six update forms, legacy aliases, RULE/REGISTER texts, garbage; multi-byte insertion, delimiter insertion, deletion, token duplication, truncation) x generated datasets x every string entry point incl. HTTP adapters; lexical snapshot (quads + catalog) unchanged around every query-path call and every Err, Err for everything the parser rejects and for update syntax on the query path, Ok for well-formed SELECTs, no panic; plus an exhaustive sweep of every char-boundary offset of 20 corpus requests x 6 multi-byte characters; thorough: 6 parallel libFuzzer jobs x 60 000 executions of the same oracle (target request_total), crash files re-judged on the stable build",
    note="trusted: parse_combined_query as the classifier of what is an update / malformed; snapshot through all_quads + named_graphs; TRAIN/ML execution requests are not generated",
-   tech="property-based testing with string mutation (proptest) + exhaustive offset sweep; snapshot-equality oracle"),
+   tech="property-based testing with string mutation (proptest) + exhaustive offset sweep + coverage-guided fuzzing (libFuzzer) with the snapshot-equality oracle in the target"),
  "C19": dict(cat="exploration",
    text="generated fact sets (3-9 facts) with 1-3 premise-only constraints and goals with 0-2 variables; oracle enumerates all 2^n subsets, takes the subset-maximal consistent ones and expects exactly the goal instances in every one of them; each case is run 10 times on freshly built reasoners (fresh hash seeds) and every run must equal the oracle; repair-aware materialisation must end in a store without constraint match",
    note="trusted: consistency = no conjunctive match of any constraint (harness matcher); constraint filters/negation outside the domain; n<=9",
@@ -73,7 +73,7 @@ CHECKS = {
  "C09": dict(cat="exploration",
    text="bounded-exhaustive core (every in-order stream of <=6 (quick) / <=8 (thorough) events with gaps from {0,1,2,3,7,20} and first ts in {0,1,s,s+1} for all width, slide in 1..=5) plus proptest-generated streams (dense/bursty/sparse gaps, width/slide up to 1000, up to 300 events) fed into CSPARQLWindow<u32> in the engine builder's configuration; an independent reference model computes per firing the set of aligned closes that explain the reported content; content, trigger, monotone-interval and density (each closing interval exactly once) clauses are checked on it",
    note="trusted: closed-form feasible-close computation (self-checked against literal enumeration on all small cases); an interval is identified only by its content so the verdict is existential over feasible closes; intervals closing at or before the first event are optional; flush() excluded; known finding C09-F1 excluded only through its own signature",
-   tech="bounded exhaustive enumeration + property-based testing (proptest) against a reference window model"),
+   tech="bounded exhaustive enumeration + property-based testing (proptest) against a reference window model; thorough tier adds a coverage-guided campaign (libFuzzer drives the same strategy through proptest's PassThrough generator)"),
 
  "C12": dict(cat="exploration",
    text="property-based history replay: 60k (quick) / 1.5M (thorough) generated window-consistent stream histories (2-3 windows, optional static graph, 1-2 outputs, 1-5 positive rules incl. joins, chains, recursion, multi-support heads, re-arrivals, expired leftovers, 2-10 evaluation times) with the incremental state threaded between calls; at every evaluation time naive == oracle, incremental state (facts and expiries, both directions) == oracle, nothing with expiry <= now stored, external view == naive == oracle",
